@@ -251,6 +251,14 @@ def step (st : St) (toks : List String) : St × String :=
         ({ st with grants := st.grants ++ [(i, f == "s")], run := none }, "ok")
       else bad
     | _, _ => bad
+  | ["grantall", f] =>
+    match st.client with
+    | some _ =>
+      if f = "s" ∨ f = "w" ∨ f = "sw" then
+        let flags : List Bool := f.toList.map (· == 's')
+        ({ st with grants := (List.range st.metas.length).flatMap (fun i => flags.map (fun b => (i, b))), run := none }, "ok")
+      else bad
+    | none => bad
   | ["ix", darg, a, b, c, d] =>
     match st.shape, st.client, (readSx darg).bind parseArg, smallDec a 3, smallDec b 20, parseBool c, parseHex d with
     | some s, some _, some arg, some a, some b, some cb, some d =>
